@@ -17,6 +17,8 @@ import (
 	sdk "github.com/cosmos/cosmos-sdk/types"
 	distrtypes "github.com/cosmos/cosmos-sdk/x/distribution/types"
 	stakingtypes "github.com/cosmos/cosmos-sdk/x/staking/types"
+	transfertypes "github.com/cosmos/ibc-go/v7/modules/apps/transfer/types"
+	clienttypes "github.com/cosmos/ibc-go/v7/modules/core/02-client/types"
 	"github.com/ethereum/go-ethereum/common"
 
 	evmtypes "github.com/haqq-network/haqq/x/evm/types"
@@ -58,6 +60,7 @@ func scenarios(tier string) []scenario {
 		{"distribution.withdrawDelegatorRewards", []string{"-"}, []string{"signer", "caller"}},
 		{"distribution.claimRewards", []string{"-"}, []string{"signer", "caller"}},
 		{"distribution.setWithdrawAddress", []string{"-"}, []string{"signer"}},
+		{"ics20.transfer", []string{"1", "mid", "all", "all+1"}, []string{"signer", "caller"}},
 	}
 	pres := []string{"base", "wd-other", "no-rewards"}
 	dirties := []string{"none", "signer", "withdrawer"}
@@ -79,7 +82,7 @@ func scenarios(tier string) []scenario {
 						if named == "caller" && topo == "direct" {
 							continue
 						}
-						if named == "caller" && mm.name == "staking.delegate" && (v0 == 0 || (topo == "two" && v1 == 0)) {
+						if named == "caller" && (mm.name == "staking.delegate" || mm.name == "ics20.transfer") && (v0 == 0 || (topo == "two" && v1 == 0)) {
 							continue // a contract delegating its own funds needs funds
 						}
 						for _, a := range mm.amts {
@@ -212,6 +215,15 @@ func (r *runner) build(sc scenario) (root *calltree.Frame, leaf *calltree.Leaf, 
 	case "distribution.claimRewards":
 		leaf = &calltree.Leaf{Name: sc.method, To: precomp.DistrAddr, Data: precomp.MustPack(di, "claimRewards", named, uint32(5))}
 		msgs = []sdk.Msg{distrtypes.NewMsgWithdrawDelegatorReward(namedAcc, v1)}
+	case "ics20.transfer":
+		recv := w.Addrs[f.T].String()
+		leaf = &calltree.Leaf{Name: sc.method, To: precomp.ICS20Addr, Data: precomp.MustPack(f.ABIs.ICS20, "transfer", world.IBCPort, world.IBCChannelA, world.Denom, amt, named, recv,
+			struct {
+				RevisionNumber uint64
+				RevisionHeight uint64
+			}{3, 100000}, uint64(0), "")}
+		msgs = []sdk.Msg{&transfertypes.MsgTransfer{SourcePort: world.IBCPort, SourceChannel: world.IBCChannelA, Token: sdk.Coin{Denom: world.Denom, Amount: sdkmath.NewIntFromBigInt(amt)},
+			Sender: namedAcc.String(), Receiver: recv, TimeoutHeight: clienttypes.NewHeight(3, 100000)}}
 	case "distribution.setWithdrawAddress":
 		leaf = &calltree.Leaf{Name: sc.method, To: precomp.DistrAddr, Data: precomp.MustPack(di, "setWithdrawAddress", named, w.Addrs[f.T].String())}
 		msgs = []sdk.Msg{distrtypes.NewMsgSetWithdrawAddress(namedAcc, w.Addrs[f.T])}
@@ -271,7 +283,7 @@ func (r *runner) build(sc scenario) (root *calltree.Frame, leaf *calltree.Leaf, 
 	return
 }
 
-var cmpStores = []string{"bank", "staking", "distribution"}
+var cmpStores = []string{"bank", "staking", "distribution", "ibc"}
 
 func Worker(shard, n int, tier string) *engine.Result {
 	res := engine.NewResult(Prop)
@@ -426,7 +438,7 @@ func Run(tier string) int {
 		Assumptions: []string{
 			"gas price 0 (fee flow is checked by C07)",
 			"contract callers hold generic staking grants from the signer (fixture)",
-			"ICS-20 and bank-precompile legs: bank is read-only (covered in C05's trees), ICS-20 not in the grid",
+			"ICS-20 transfers run over transfer channel ends written on ibc-go's sentinel localhost connection; the bank precompile is read-only (covered in C05's trees)",
 			strings.TrimSpace("reverted frames are covered by C05; here every frame ends normally"),
 		},
 	})
